@@ -1711,6 +1711,31 @@ const expandDepth = 3
 // only small helpers are expanded: the extracted piece of a function, not the package's machinery
 const expandMaxStmts = 30
 
+// a helper that is called from exactly one place: the bound for splicing it is larger
+const expandMaxStmtsSingle = 120
+
+// singleCallSite: fn (unexported, of the package of info) is referenced exactly once in its package,
+// as the callee of a call.
+func (p *Prog) singleCallSite(info *types.Info, fn *types.Func) bool {
+	if p == nil {
+		return false
+	}
+	if p.callSites == nil {
+		p.callSites = map[*types.Info]map[*types.Func]int{}
+	}
+	m, ok := p.callSites[info]
+	if !ok {
+		m = map[*types.Func]int{}
+		p.callSites[info] = m
+		for _, o := range info.Uses {
+			if f2, isFn := o.(*types.Func); isFn {
+				m[f2.Origin()]++
+			}
+		}
+	}
+	return m[fn.Origin()] == 1
+}
+
 func stmtCount(b *ast.BlockStmt) int {
 	n := 0
 	ast.Inspect(b, func(x ast.Node) bool {
@@ -1849,8 +1874,8 @@ func (f *FuncCFG) expand(depth int, onStack map[*types.Func]bool) {
 				if fd == nil || fd.Name.IsExported() || onStack[fn] || di.infoOf[fd] != f.Info {
 					continue
 				}
-				if fd.Body == f.Body || stmtCount(fd.Body) > expandMaxStmts {
-					continue // direct recursion, or not a small helper
+				if fd.Body == f.Body || (stmtCount(fd.Body) > expandMaxStmts && !(stmtCount(fd.Body) <= expandMaxStmtsSingle && f.P.singleCallSite(f.Info, fn))) {
+					continue // direct recursion, or not a small helper (a helper with one call site in the whole package is the moved body of its caller and is spliced up to a larger bound)
 				}
 			} else {
 				// a call of a function VALUE that is known to be one function literal: a local closure
@@ -3029,12 +3054,15 @@ func (f *FuncCFG) MapPath(path string, pt Point) string {
 // a direct statement-level call (no method value, go or defer), so that newFuncCFG splices it into
 // each caller; obligations about what happens inside it are then judged in the callers' graphs.
 func splicedEverywhere(p *Prog, pkg string, fd *ast.FuncDecl) bool {
-	if fd.Body == nil || fd.Name.IsExported() || stmtCount(fd.Body) > expandMaxStmts {
+	if fd.Body == nil || fd.Name.IsExported() || p.Pkg(pkg) == nil {
 		return false
 	}
 	info := p.Pkg(pkg).TypesInfo
 	target, _ := info.Defs[fd.Name].(*types.Func)
 	if target == nil {
+		return false
+	}
+	if stmtCount(fd.Body) > expandMaxStmts && !(stmtCount(fd.Body) <= expandMaxStmtsSingle && p.singleCallSite(info, target)) {
 		return false
 	}
 	n, ok := 0, true
